@@ -89,7 +89,7 @@ theorem hhSrcs_of_tl {m m' : M} {rows : List Row} (h : timeline m' = timeline m 
   simp [hhSrcs, hhTL, ftl, h, List.filter_append]
 
 theorem hunkLinePre_hh {cfg : Cfg} {m m2 : M} (hc : HHC cfg) (e : hunkLinePre cfg m = .ok m2) :
-    hhSrcs m2 = hhSrcs m ++ pend m ∧ m2.st = m.st ∧ m2.n = m.n := by
+    hhSrcs m2 = hhSrcs m ++ pend m ∧ m2.st = m.st ∧ m2.n = m.n ∧ m2.source = m.source := by
   unfold hunkLinePre at e
   simp only at e
   have hx : Same m (if m.minus.length > cfg.bufSize ∨ m.plus.length > cfg.bufSize then flushMP m else m) := by
@@ -105,11 +105,12 @@ theorem hunkLinePre_hh {cfg : Cfg} {m m2 : M} (hc : HHC cfg) (e : hunkLinePre cf
     · rename_i rows hr
       cases e
       have hp : pend m = [src] := by unfold pend; rw [← hx.st, hst]
-      refine ⟨?_, ?_, ?_⟩
+      refine ⟨?_, ?_, ?_, ?_⟩
       · rw [hhSrcs_of_tl (timeline_direct_flushed x rows), hunkHeaderRows_hh hc hr, hp]
         simp [hhSrcs, hhTL, ftl, hx.tl]
       · rw [direct_st, emit_st, flushMP_st]; exact hx.st
       · rw [direct_n, emit_n, flushMP_n]; exact hx.n
+      · rw [direct_source, emit_source, flushMP_source]; exact hx.source
   · rename_i hnot
     cases e
     have hp : pend m = [] := by
@@ -118,7 +119,7 @@ theorem hunkLinePre_hh {cfg : Cfg} {m m2 : M} (hc : HHC cfg) (e : hunkLinePre cf
       split
       · rename_i dt hh line raw src hst; exact absurd hst (hnot dt hh line raw src)
       · rfl
-    exact ⟨by simp [hhSrcs, hhTL, ftl, hx.tl, hp], hx.st, hx.n⟩
+    exact ⟨by simp [hhSrcs, hhTL, ftl, hx.tl, hp], hx.st, hx.n, hx.source⟩
 
 theorem pHH_of_body {k : RowKind} (h : isBody k = true) : pHH k = false := by
   cases k <;> simp_all [isBody, pHH]
@@ -127,7 +128,8 @@ theorem pHH_of_body {k : RowKind} (h : isBody k = true) : pHH k = false := by
 is not a header row -/
 theorem handleHunkLine_hh {cfg : Cfg} {m m' : M} {l : L} {b : Bool} (hc : HHC cfg) (hs' : isHunkState m.st = true)
     (g : Good m) (e : handleHunkLine cfg m l = .ok (b, m')) :
-    b = true ∧ m'.n = m.n ∧ isMergeConflict m'.st = false ∧ hhSrcs m' = hacct m ∧ pend m' = [] := by
+    b = true ∧ m'.n = m.n ∧ isMergeConflict m'.st = false ∧ hhSrcs m' = hacct m ∧ pend m' = [] ∧
+      m'.source = m.source := by
   have e0 := e
   unfold handleHunkLine at e
   split at e
@@ -140,7 +142,7 @@ theorem handleHunkLine_hh {cfg : Cfg} {m m' : M} {l : L} {b : Bool} (hc : HHC cf
       · rename_i m3 e3
         cases e
         obtain ⟨hb, hn, hnomc, _⟩ := handleHunkLine_body hs' g e0
-        obtain ⟨hsrcs2, hst2, hn2⟩ := hunkLinePre_hh hc e2
+        obtain ⟨hsrcs2, hst2, hn2, hsource2⟩ := hunkLinePre_hh hc e2
         obtain ⟨r2, _, hhdr, _, _⟩ := hunkLinePre_spec e2 g
         have hplus : isHunkPlus m2.st = false → m2.plus = [] := by
           intro hnp
@@ -153,8 +155,8 @@ theorem handleHunkLine_hh {cfg : Cfg} {m m' : M} {l : L} {b : Bool} (hc : HHC cf
             rcases r2.shrink.2 with s | s <;> simp [s, this]
           · rw [h] at hnp; simp [isHunkPlus] at hnp
         obtain ⟨r, htl3, _, hbody⟩ := hunkLinePush_body e3 hplus
-        obtain ⟨_, _, hst3⟩ := hunkLinePush_co e3
-        refine ⟨hb, hn, hnomc, ?_, ?_⟩
+        obtain ⟨_, hsource3, hst3⟩ := hunkLinePush_co e3
+        refine ⟨hb, hn, hnomc, ?_, ?_, hsource3.trans hsource2⟩
         · have h3 : hhSrcs (emit m3) = hhSrcs m2 := by
             have : timeline (emit m3) = timeline m2 ++ [r] := by rw [timeline_emit, htl3]
             rw [hhSrcs_of_tl this]
@@ -228,6 +230,7 @@ def isHHLine (l : L) : Bool :=
 structure HB (l : L) (m m' : M) (b : Bool) : Prop where
   n : m'.n = m.n
   nomc : isMergeConflict m'.st = false
+  source : m'.source = m.source
   pass : b = false → hacct m' = hacct m ∧ pend m' = []
   eff : (hacct m' = hacct m ∧ pend m' = []) ∨ (hacct m' = hacct m ++ [m.n] ∧ isHHLine l = true)
 
@@ -242,7 +245,7 @@ theorem HB.of_fs {l : L} {m m' : M} {b : Bool} (h : FS pHH m m' b) (hs : isMerge
   have hp' : pend m' = [] := pend_of_quiet rfl rfl h.quiet hp
   have hacc : hacct m' = hacct m := by
     unfold hacct hhSrcs hhTL; rw [h.body, hp, hp']
-  exact ⟨h.n, h.nomc hs, fun _ => ⟨hacc, hp'⟩, Or.inl ⟨hacc, hp'⟩⟩
+  exact ⟨h.n, h.nomc hs, h.source, fun _ => ⟨hacc, hp'⟩, Or.inl ⟨hacc, hp'⟩⟩
 
 theorem handlerOf_hb {name : String} {hd : Handler} (hn : handlerOf name = some hd)
     {cfg : Cfg} {m m' : M} {l : L} {b : Bool} (hc : HHC cfg) (hs : isMergeConflict m.st = false) (g : Good m)
@@ -272,24 +275,24 @@ theorem handlerOf_hb {name : String} {hd : Handler} (hn : handlerOf name = some 
             obtain ⟨fv, h⟩ := handleHunkHeader_fv (p := pHH) e
             rcases h with ⟨hb, hm⟩ | ⟨hb, hsw, _, dt, hh, hparse, hst⟩
             · subst hb; subst hm
-              exact ⟨rfl, hs, fun _ => ⟨rfl, hp⟩, Or.inl ⟨rfl, hp⟩⟩
+              exact ⟨rfl, hs, rfl, fun _ => ⟨rfl, hp⟩, Or.inl ⟨rfl, hp⟩⟩
             · subst hb
               have hp' : pend m' = [m.n] := by unfold pend; rw [hst]
               have hacc : hacct m' = hacct m ++ [m.n] := by
                 unfold hacct hhSrcs hhTL; rw [fv.body, hp, hp']; simp
-              refine ⟨fv.n, by rw [hst]; rfl, fun h => (by cases h), Or.inr ⟨hacc, ?_⟩⟩
+              refine ⟨fv.n, by rw [hst]; rfl, fv.source, fun h => (by cases h), Or.inr ⟨hacc, ?_⟩⟩
               unfold isHHLine; simp [hsw, hparse])
          | (-- handle_hunk_line
             cases hh : isHunkState m.st
             · unfold handleHunkLine at e
               simp only [hh, Bool.not_false, if_true] at e
               cases e
-              exact ⟨rfl, hs, fun _ => ⟨rfl, hp⟩, Or.inl ⟨rfl, hp⟩⟩
-            · obtain ⟨hb, hn', hnomc, hsrcs, hp'⟩ := handleHunkLine_hh hc hh g e
+              exact ⟨rfl, hs, rfl, fun _ => ⟨rfl, hp⟩, Or.inl ⟨rfl, hp⟩⟩
+            · obtain ⟨hb, hn', hnomc, hsrcs, hp', hsource'⟩ := handleHunkLine_hh hc hh g e
               have hacc : hacct m' = hacct m := by
                 show hhSrcs m' ++ pend m' = hacct m
                 rw [hsrcs, hp']; simp
-              exact ⟨hn', hnomc, fun _ => ⟨hacc, hp'⟩, Or.inl ⟨hacc, hp'⟩⟩))
+              exact ⟨hn', hnomc, hsource', fun _ => ⟨hacc, hp'⟩, Or.inl ⟨hacc, hp'⟩⟩))
     | cases hn
 
 theorem chain_hb {cfg : Cfg} {l : L} (hc : HHC cfg) (hmc : startsWith l.text Generated.Markers.mcBegin = false) :
@@ -297,7 +300,7 @@ theorem chain_hb {cfg : Cfg} {l : L} (hc : HHC cfg) (hmc : startsWith l.text Gen
     pend m = [] → HB l m m' true
   | [], m, m', e, hs, g, hp => by
     simp only [chain] at e; cases e
-    exact ⟨rfl, hs, fun h => (by cases h), Or.inl ⟨rfl, hp⟩⟩
+    exact ⟨rfl, hs, rfl, fun h => (by cases h), Or.inl ⟨rfl, hp⟩⟩
   | name :: rest, m, m', e, hs, g, hp => by
     simp only [chain] at e
     split at e
@@ -313,7 +316,7 @@ theorem chain_hb {cfg : Cfg} {l : L} (hc : HHC cfg) (hmc : startsWith l.text Gen
         have g1 := (handlerOf_step hn e1 g).good
         obtain ⟨hacc1, hp1⟩ := c.pass rfl
         have r := chain_hb hc hmc rest e c.nomc g1 hp1
-        refine ⟨r.n.trans c.n, r.nomc, fun h => (by cases h), ?_⟩
+        refine ⟨r.n.trans c.n, r.nomc, r.source.trans c.source, fun h => (by cases h), ?_⟩
         rcases r.eff with ⟨h1, h2⟩ | ⟨h1, h2⟩
         · exact Or.inl ⟨h1.trans hacc1, h2⟩
         · exact Or.inr ⟨by rw [h1, hacc1, c.n], h2⟩
